@@ -79,7 +79,7 @@ KINDS = {"region": model.Region, "body": model.Body, "div": model.Div, "p": mode
 CHAIN = ["region", "body", "div", "p", "span"]
 
 
-def build_chain(ruby=False):
+def build_chain(ruby=False, container=False):
   doc = model.ContentDocument()
   r = model.Region("r1", doc)
   doc.put_region(r)
@@ -105,9 +105,18 @@ def build_chain(ruby=False):
     s2.push_child(model.Text(doc, "T"))
     rb.push_child(s1)
     rt.push_child(s2)
-    ruby_e.push_children([rb, rt])
+    extra = []
+    if container:
+      # container form: ruby > (rbc > rb, rtc > rt)
+      rbc, rtc = model.Rbc(doc), model.Rtc(doc)
+      rbc.push_child(rb)
+      rtc.push_child(rt)
+      ruby_e.push_children([rbc, rtc])
+      extra = [("rtc", rtc)]
+    else:
+      ruby_e.push_children([rb, rt])
     p.push_child(ruby_e)
-    for k, e in (("ruby", ruby_e), ("rb", rb), ("rt", rt), ("rtspan", s2)):
+    for k, e in [("ruby", ruby_e), ("rb", rb), ("rt", rt), ("rtspan", s2)] + extra:
       e.set_id(k)
       els[k] = e
   return doc, els
@@ -276,7 +285,7 @@ class LengthHarness(Harness):
   assumptions = ("style arithmetic is compared in real arithmetic; the float constants 100/rows, 100/height are taken as the exact "
                  "rational value of the same Python float",)
   outside = ("IEEE rounding of products of lengths", "rw/rh specified font sizes other than rh")
-  required_witnesses = ("unit-%", "unit-em", "unit-c", "unit-px", "half-size-ruby-text")
+  required_witnesses = ("unit-%", "unit-em", "unit-c", "unit-px", "half-size-ruby-text", "ruby-container-form")
   bounds = {"quick": "font size specified on any subset of region/p/span with any of 5 units and symbolic values (0,1000); dependent "
                      "lengths (lineHeight, linePadding, textOutline, textShadow x/y/blur, rubyReserve) on p/span in any unit; "
                      "4 cell resolutions x 3 pixel extents", "thorough": "same with div and body font sizes as well"}
@@ -290,7 +299,8 @@ class LengthHarness(Harness):
   def body(self, ex, params):
     (rows, cols), (w, h) = self.RES[params["res"]]
     dep = params["dep"]
-    doc, els = build_chain(ruby=(dep == "rubytext"))
+    container = dep == "rubytext" and ex.boolean("ruby_container_form")
+    doc, els = build_chain(ruby=(dep == "rubytext"), container=container)
     doc.set_cell_resolution(model.CellResolutionType(rows=rows, columns=cols))
     doc.set_px_resolution(model.PixelResolutionType(width=w, height=h))
     c_ref = (RV(Fraction(100 / rows)), U.rh)
@@ -367,9 +377,12 @@ class LengthHarness(Harness):
       if k in got and got[k].get_style(SP.FontSize) is not None:
         check_len(got[k].get_style(SP.FontSize), fs[k], "fontSize@" + k)
     if dep == "rubytext":
-      # rt (child of ruby, not of rtc) defaults to half the parent's computed font size; its span inherits that
+      # ruby text defaults to half the font size of the ruby container's parent: on rt directly under ruby, or on rtc
+      # (whose rt children then inherit it unchanged); the span inside rt inherits that
       if "rt" in got:
         ex.witness("half-size-ruby-text")
+        if container:
+          ex.witness("ruby-container-form")
         check_len(got["rt"].get_style(SP.FontSize), (fs["p"][0] / 2, fs["p"][1]), "fontSize@rt")
         check_len(got["rtspan"].get_style(SP.FontSize), (fs["p"][0] / 2, fs["p"][1]), "fontSize@rt>span")
         check_len(got["rb"].get_style(SP.FontSize), fs["p"], "fontSize@rb")
